@@ -231,7 +231,7 @@ def gen(seed, tier="quick"):
     W_init = None
     if ic.random() < 0.6:
         rr = math.tan(ic.uniform(0, math.pi) / 4) * _rand_unit(ic)
-        if ic.random() < 0.25:
+        if ic.random() < 0.35:
             # body z axis (nearly) along the horizontal field direction: the geometry in which the
             # heading update is unobservable and must be refused ("too close to vertical")
             north = rm.Rz(decl) @ np.array([1.0, 0, 0])
